@@ -362,3 +362,25 @@ Definition vector_lookup (l : list (string * view)) (key : list string) : res (l
       | Some _ => match lookup_all l key with Some zs => Ok zs | None => Err ENotFound end
       end
   end.
+
+(** ** update with a value of a type that is not allowed (str, dict, any object)
+
+    The new ParameterAtInstant is built after the argument handling and validates its
+    value (parameter_at_instant.py, validate: ParameterParsingError); values_list is
+    assigned only at the very end of update, so a refused call leaves the history as it
+    was - which is what returning [Err] means here. *)
+Inductive uvalue (V : Type) :=
+  | UVal (v : option V)
+  | UIllTyped.
+Arguments UVal {V} v.
+Arguments UIllTyped {V}.
+
+Definition update_checked {V} (h : hist V) (p : option period) (start stop : option Z)
+    (v : uvalue V) : res (hist V) :=
+  match v with
+  | UVal v => update h p start stop v
+  | UIllTyped => match update h p start stop None with
+                 | Ok _ => Err EOther
+                 | Err e => Err e
+                 end
+  end.
